@@ -316,6 +316,26 @@ let parse_entity (t : string) : entity =
       { j_host = hx host; j_method = hx m; j_uri = hx uri; j_headers = hl; j_tag = hx tag; j_body = hx body }
   | _ -> failwith ("bad entity " ^ t)
 
+(* a line of an http/json file: J:<member>,... (h. m. u. t. b. = host method uri tag body, H.k=v;... headers,
+   o.<key> a member that stores nothing); an E: token = all six members written *)
+let parse_jline (t : string) : jmember list =
+  if starts "E:" t then
+    let e = parse_entity t in
+    [MHost e.j_host; MMethod e.j_method; MUri e.j_uri; MHeaders e.j_headers; MTag e.j_tag; MBody e.j_body]
+  else if starts "J:" t then
+    let body = after_prefix "J:" t in
+    if body = "" then [] else
+    List.map (fun m ->
+      let (k, v) = cut '.' m in
+      match k with
+      | "h" -> MHost (hx v) | "m" -> MMethod (hx v) | "u" -> MUri (hx v) | "t" -> MTag (hx v) | "b" -> MBody (hx v)
+      | "o" -> MIgnored (hx v)
+      | "H" -> MHeaders (if v = "-" then [] else
+                 List.map (fun kv -> match String.split_on_char '=' kv with
+                                     | [k; v] -> (hx k, hx v) | _ -> failwith "bad header") (String.split_on_char ';' v))
+      | _ -> failwith ("bad member " ^ m)) (String.split_on_char ',' body)
+  else failwith ("bad line token " ^ t)
+
 let rec delivered = function SDeliver _ :: r -> 1 + delivered r | _ -> 0
 let field_of (p : string) (obs : string) : string =
   List.fold_left (fun acc w -> if starts p w then after_prefix p w else acc) "" (split_blank obs)
@@ -369,12 +389,17 @@ let predict_ammo fmt en depth nto k fin file toks obs =
                 ammo_spec cfg r_tag r_path r_x O one (cycle_take kn ents ents), List.for_all wf_ritem items)
         end
     | "json" ->
-        (* the JSON text is an oracle (encoding/json): the model starts from the entities of the case *)
-        let ents = List.map parse_entity toks in
+        (* the JSON text is an oracle (encoding/json): the model starts from the members the tokens say are
+           written on each line (Model/ShootJsonLine.v); code-shaped side: every line decoded into a fresh
+           entity, then the stream decoder and Shoot; specification side: the same entries carrying the tag
+           WRITTEN on their own line (line_tag: last tag member, none -> no tag) *)
+        let ls = List.map parse_jline toks in
+        let ents = lines_entities ls in
         (match read_array simple_url ents with
          | None -> None
          | Some es ->
-             let (a, d, b) = entries (fun () -> json_stream_decode simple_url cfg0 kn ents JEof) es in
+             let es_spec = List.map2 (fun (e : entry) l -> { e with e_tag = line_tag l }) es ls in
+             let (a, d, b) = entries (fun () -> json_stream_decode simple_url cfg0 kn ents JEof) es_spec in
              Some (a, d, b, true))
     | _ -> None in
   match res with
